@@ -20,7 +20,8 @@ RULE = ('Hypothesis documents: profile "full" exported in the four non-agnostic 
         '(headers "**"+prefix+type, non-note cells identical, basic = decorations removed member by member, agnostic '
         '= pitch letters converted under the clef in force); (3) a cell that is a placeholder is the same placeholder ("." or "*") '
         'in all six encodings; (4) in the "full" profile (notes need not have a clef) every group of exports is preceded by an agnostic '
-        'export whose outcome is not defined and is ignored - it must leave nothing behind.  Non-trivial: the document has a chord in which a '
+        'export whose outcome is not defined and is ignored - it must leave nothing behind.  The output-vs-output relations (1), (3) and the '
+        'header rule are also applied to the repository\'s own sample scores (whole score and one category selection).  Non-trivial: the document has a chord in which a '
         'non-final member carries a signifier, or at least three encodings give pairwise different texts for some '
         'note.')
 ASSUMPTIONS = ['core alphabet: non-note cells contain neither "@" nor the middle dot (KF-SEP is tracked under C03)',
@@ -178,11 +179,91 @@ def check(case):
                   (['chord-with-decorated-inner-member'] if chord_deco else []) + sorted(undefined), sample=text, key=text)
 
 
+def _norm_placeholders(g):
+    return [[('.' if c in ('.', '*') else ' '.join('.' if m in ('.', '*') else m for m in c.split(' ')) if ' ' in c and '·' not in c and '@' in c else c)
+             for c in r] for r in g]
+
+
+def check_real(case):
+    """a sample score of the repository: the relations between kernpy's own six exports (no model of the document needed) -
+    plain == extended without the separators, basic == full with the signifiers cut note by note, headers '**' + prefix + type,
+    a placeholder is the same placeholder everywhere - for the whole score and under one category selection"""
+    from .. import realscores as RS
+    try:
+        kdoc, errs = kp.load(RS.path(case['real']))
+    except Exception:  # noqa
+        return Result(classes=['real-score-not-importable'])
+    if errs:
+        return Result(classes=['real-score-with-import-errors'])
+    types = kp.spine_types(kdoc)
+    evals = 0
+    sel_sets = [{}, {'exclude': [TC.DECORATION]}, {'include': [TC.CORE, TC.BARLINES, TC.SIGNATURES, TC.STRUCTURAL, TC.LYRICS]},
+                {'exclude': [TC.DURATION, TC.REST]}]
+    dot_signifier = '·.' in K.dumps(kdoc, encoding=K.ENCODINGS['ekern'])
+    # (an augmentation dot written AFTER the rest or the pitch - '4r.' - is read as a signifier; '.' is outside the signifier
+    # alphabet of the property (it is a duration mark) and, left alone in a cell, coincides with the null token: such scores
+    # take part with the whole export only)
+    for kw in [sel_sets[0]] + ([] if dot_signifier else [sel_sets[1 + case['raw'][0][0] % 3]]):
+        out = {}
+        for e in ENCS6:
+            try:
+                out[e] = K.dumps(kdoc, what=f'{case["real"]} {e}', encoding=K.ENCODINGS[e], **kw)
+            except Bad:
+                if e in ('akern', 'aekern'):
+                    continue  # a clef kernpy cannot place, a pitch before the first clef: the agnostic exports are not defined
+                raise
+        grids = {e: K.grid(out[e]) for e in out}
+        evals += len(out)
+        tag = f'{case["real"]} ({K._kwrepr(kw)})'
+        for plain, ext in (('kern', 'ekern'), ('bkern', 'bekern'), ('akern', 'aekern')):
+            if plain not in grids or ext not in grids:
+                continue
+            gp, ge = grids[plain], grids[ext]
+            if len(gp) != len(ge) or any(len(x) != len(y) for x, y in zip(gp, ge)):
+                raise Bad('shape', f'{tag}: {plain} and {ext} have different shapes')
+            for ri, (rp, re_) in enumerate(zip(gp, ge)):
+                for cp, ce in zip(rp, re_):
+                    if ce.startswith('**'):
+                        okp = cp == '**' + K.PREFIX[plain] + ce[2 + len(K.PREFIX[ext]):] and ce.startswith('**' + K.PREFIX[ext])
+                    else:
+                        okp = cp == K.strip_sep(ce)
+                    if not okp:
+                        raise Bad('plain-vs-extended', f'{tag} line {ri}: {plain} cell {cp!r} vs {ext} cell {ce!r}')
+        for e, g in grids.items():
+            if g and g[0] != ['**' + K.PREFIX[e] + t[2:] for t in types][:len(g[0])] and len(g[0]) == len(types):
+                raise Bad('header', f'{tag}: {e} header line {g[0]}, spine types {types}')
+        ge, gb = grids['ekern'], grids['bekern']
+        exp_b = []
+        for row in ge:
+            r = [('**be' + c[3:]) if c.startswith('**e') else bekern_of(c) for c in row]
+            r = [c if c != '' else '.' for c in r]
+            if not all(c in ('.', '*', '') for c in r):
+                exp_b.append(r)
+        if _norm_placeholders(gb) != _norm_placeholders(exp_b):
+            bad = [(x, y) for x, y in zip(gb, exp_b) if x != y][:2]
+            raise Bad('basic-vs-full', f'{tag}: bekern is not ekern with the signifiers removed note by note: {bad}')
+        ref = grids['ekern']
+        for e in grids:
+            if len(grids[e]) == len(ref) and all(len(x) == len(y) for x, y in zip(grids[e], ref)):
+                for ri, (rx, ry) in enumerate(zip(grids[e], ref)):
+                    for cx, cy in zip(rx, ry):
+                        if cx != cy and (cy in K.NULLS or (cx in K.NULLS and e in ('kern', 'akern', 'aekern'))):
+                            raise Bad('placeholder-differs', f'{tag} line {ri}: {e} writes {cx!r} where ekern writes {cy!r}')
+    return Result(nontrivial=True, evals=evals, classes=['real-score'] + (['real-score-agnostic'] if 'akern' in out else []) + (['real-score-dot-as-signifier'] if dot_signifier else []),
+                  sample={'file': case['real']}, key=['real', case['real'], case['raw'][0][0] % 3])
+
+
 def run(ctx):
+    from .. import realscores as RS
+    rc = RS.cases(max_bytes=20000, nranges=1)
+    if rc is not None:
+        ctx.run_hypothesis(rc, check_real, max_examples=12 if ctx.quick else 300, salt=9, label='real-scores')
     n = 50 if ctx.quick else 1200
     ctx.run_hypothesis(cases('full'), check, max_examples=n, label='full')
     ctx.run_hypothesis(cases('agnostic'), check, max_examples=n, salt=1, label='agnostic')
 
 
 def replay(case):
+    if 'real' in case:
+        return check_real(case)
     return check(case)
